@@ -2,6 +2,8 @@ package kv
 
 import (
 	"context"
+
+	"github.com/oxia-db/oxia/proto"
 )
 
 // ZZSeqSubscriber (C16): a sequence-update subscriber (real sequenceWaiterTracker + overrideChannel)
@@ -176,6 +178,57 @@ func ZZSeqInitial(kind int) {
 	} else {
 		vAssert("new-subscriber-is-told-the-latest-generated-key", got == want)
 	}
+	_ = sw.Close()
+	vReach("end")
+}
+
+// ZZSeqNotify (C16): a subscriber of prefix "p" is told about every key generated AFTER it subscribed, with
+// notifications enabled or disabled on the shard (notif), for one sequence put or a batch of two plus an
+// ordinary put: after the request the subscriber's latest value is the latest generated key of its prefix.
+func ZZSeqNotify(kind, notif, two int) {
+	m := zzSeqState(kind)
+	d := zzNewDB(m, 10)
+	d.EnableNotifications(notif == 1)
+	sw, err := d.GetSequenceUpdates("p")
+	vAssert("subscribed", err == nil)
+	select {
+	case <-sw.Ch(): // whatever existed before
+	default:
+	}
+	pk := "pk"
+	_, last := zzSeqExisting(kind)
+	nd := len(last)
+	if nd == 0 {
+		nd = 1
+	}
+	mk := func(first uint64) *proto.PutRequest {
+		r := &proto.PutRequest{Key: "p", Value: []byte("v"), PartitionKey: &pk, SequenceKeyDelta: []uint64{first}}
+		for i := 1; i < nd; i++ {
+			r.SequenceKeyDelta = append(r.SequenceKeyDelta, 1)
+		}
+		return r
+	}
+	req := &proto.WriteRequest{Puts: []*proto.PutRequest{mk(2)}}
+	if two == 1 {
+		req.Puts = append(req.Puts, mk(3), &proto.PutRequest{Key: "plain", Value: []byte("v")})
+	}
+	res, err := d.ProcessWrite(req, 7, 1000, NoOpCallback)
+	vAssert("no-infrastructure-error", err == nil)
+	if err != nil {
+		return
+	}
+	want := ""
+	for _, pr := range res.Puts[:1+two] {
+		if pr.Status == proto.Status_OK && pr.Key != nil {
+			want = *pr.Key
+		}
+	}
+	got := ""
+	select {
+	case got = <-sw.Ch():
+	default:
+	}
+	vAssert("subscriber-is-told-the-latest-generated-key", want != "" && got == want)
 	_ = sw.Close()
 	vReach("end")
 }
